@@ -5,6 +5,8 @@ import (
 	"fmt"
 	"go/format"
 	"math/rand"
+	"os"
+	"path/filepath"
 	"strings"
 	"verif/internal/pegsyntax"
 
@@ -256,7 +258,7 @@ func c08(c *ctx) {
 		c08huge(c, peg)
 	}
 	requireCov(c, "packages_ok", "grammars_many", "grammars_no", "grammars_surface", "grammars_profile", "grammars_warned")
-	c.run.Rule = "cases: grammars from all profiles plus a surface profile (user imports single/several/grouped/aliased/duplicating runtime imports/sorting differently with and without alias — each used by the parser state so that they are needed; header comments with # and // and blank-line runs; state with nested braces; literals and classes over NUL, control, quote, bracket, dash, caret, backslash, Latin-1, U+2028, non-BMP and U+10FFFF characters; actions, state changes and predicates containing /* */ and // comments, '*/' in strings, nested braces, raw strings; grammars without any terminal; captures nobody reads; actions without capture; grammars accepted with warnings only: unused rules, undefined names, left recursion) and grammars of 130-430 rules (x1-3 actions each: beyond 255 rule ids); each generated with the real peg under all eight -inline/-switch/-noast combinations. " +
+	c.run.Rule = "cases: grammars from all profiles plus a surface profile (user imports single/several/grouped/aliased/duplicating runtime imports/sorting differently with and without alias — each used by the parser state so that they are needed; header comments with # and // and blank-line runs; state with nested braces; literals and classes over NUL, control, quote, bracket, dash, caret, backslash, Latin-1, U+2028, non-BMP and U+10FFFF characters; actions, state changes and predicates containing /* */ and // comments, '*/' in strings, nested braces, raw strings; grammars without any terminal; captures nobody reads; actions without capture; grammars accepted with warnings only: unused rules, undefined names, left recursion) and grammars of 130-430 rules (x1-3 actions each: beyond 255 rule ids; in the thorough tier one 33 000-rule grammar with 66 001 rule ids is generated and checked for syntax, 32-bit rule type and gofmt form but not compiled — the Go compiler needs hours for it); each generated with the real peg under all eight -inline/-switch/-noast combinations. " +
 		"Oracle: exit 0, empty stderr (warnings only for the warned kind), the file compiles together with a file that uses the public API, and go/format.Source(file) == file. distinct_nontrivial = distinct emitted files (sha256 below the header line) that passed."
 	c.run.Assume("rule names R<n>/H<n>..., actions are valid Go; predicates are Go expressions (a trailing // comment inside a predicate is not an expression and is not generated); actions use text only in grammars with a capture")
 }
@@ -271,7 +273,10 @@ func firstDiff(a, b []byte) string {
 	return fmt.Sprintf("length %d vs %d lines", len(la), len(lb))
 }
 
-// c08huge: one grammar with more than 65535 rule ids (uint32 rule type), thorough tier only.
+// c08huge: one grammar with more than 65535 rule ids (uint32 rule type), thorough tier only. The Go compiler needs
+// hours for the single function holding 66 000 closures (measured: >70 CPU-minutes without finishing), so this
+// file is NOT compiled: it must be generated, be syntactically valid Go, declare a 32-bit rule type, and be a
+// gofmt fixed point. The uint8->uint16 boundary is crossed (and compiled) by the many-rules grammars above.
 func c08huge(c *ctx, peg string) {
 	nr := 33000
 	var sb strings.Builder
@@ -289,25 +294,25 @@ func c08huge(c *ctx, peg string) {
 	for i := 1; i <= nr; i++ {
 		fmt.Fprintf(&sb, "R%d <- 'k%d;' { p.N++ }\n", i, i)
 	}
-	cp := corpus.New(c.env, peg, false, "c08-huge")
-	defer cp.Remove()
-	cp.Add(&corpus.Job{Pkg: "big", Text: sb.String(), NoProbe: true, Extra: map[string]string{"use.go": useFile("big", "P", false, true)}})
-	cp.Generate()
-	if err := cp.Compile(); err != nil {
-		die("huge grammar build: %v", err)
-	}
-	j := cp.Job("big")
+	d := filepath.Join(c.env.Scratch, "c08-huge")
+	res := runPeg(peg, d, sb.String())
+	defer os.RemoveAll(d)
 	c.run.Eval(1)
 	c.run.Count("huge_grammar_rule_ids", 2*nr+1)
 	switch {
-	case j.GenExit != 0 || len(j.GenOut) == 0:
-		c.run.Violate("huge-generate", fmt.Sprintf("peg failed on a grammar with %d rules: %s", nr, firstLine(j.GenStderr)), map[string]any{"rules": nr, "stderr": tail(j.GenStderr, 2000)})
-	case !j.Compiled:
-		c.run.Violate("huge-compile", "the parser for a grammar with more than 65535 rule ids does not compile: "+firstLine(j.CompErr), map[string]any{"rules": nr, "go_build": j.CompErr})
-	case !bytes.Contains(j.GenOut, []byte("type pegRule uint32")):
+	case res.exit != 0 || len(res.out) == 0:
+		c.run.Violate("huge-generate", fmt.Sprintf("peg failed on a grammar with %d rules: %s", nr, firstLine(res.stderr)), map[string]any{"rules": nr, "stderr": tail(res.stderr, 2000)})
+	case !bytes.Contains(res.out, []byte("type pegRule uint32")):
 		c.run.Violate("huge-ruletype", "more than 65535 rule ids need a 32-bit rule type", map[string]any{"rules": nr})
 	default:
-		c.run.Count("huge_grammar_ok", 1)
+		f, err := format.Source(res.out)
+		if err != nil {
+			c.run.Violate("huge-syntax", "the parser for a grammar with more than 65535 rule ids is not valid Go: "+err.Error(), map[string]any{"rules": nr})
+		} else if !bytes.Equal(f, res.out) {
+			c.run.Violate("huge-gofmt", "the parser for the huge grammar is not gofmt-clean: "+firstDiff(res.out, f), map[string]any{"rules": nr})
+		} else {
+			c.run.Count("huge_grammar_ok", 1)
+		}
 	}
 }
 
